@@ -1198,6 +1198,8 @@ class PyFlow:
             return self.ev(e.args[1], p, depth, no_effect=no_effect)
         if fname == "str" and isinstance(f, ast.Name) and len(e.args) == 1:
             return [(q, tpl([v])) for q, v in self.ev(e.args[0], p, depth, no_effect=no_effect)]
+        if fname == "__array__" and isinstance(f, ast.Name) and len(e.args) == 3 and isinstance(e.args[0], ast.Constant):
+            return [(q, Poly.atom(("arr", str(e.args[0].value), str(e.args[1].value), v))) for q, v in self.ev(e.args[2], p, depth, no_effect=True)]
         if fname == "__ptr__" and isinstance(f, ast.Name) and len(e.args) == 2 and isinstance(e.args[0], ast.Constant):
             return [(q, Poly.atom(("ptr", str(e.args[0].value), v))) for q, v in self.ev(e.args[1], p, depth, no_effect=no_effect)]
         if fname == "__ref__" and isinstance(f, ast.Name) and len(e.args) == 2 and isinstance(e.args[0], ast.Constant):
